@@ -152,8 +152,12 @@ func (o *Obligation) smtText(withModel bool) string {
 }
 
 func runSolver(sp solverSpec, file string, secs, seed int) (status, out string, ms int64) {
+	return runSolverCtx(context.Background(), sp, file, secs, seed)
+}
+
+func runSolverCtx(parent context.Context, sp solverSpec, file string, secs, seed int) (status, out string, ms int64) {
 	args := sp.args(file, secs, seed)
-	ctx, cancel := context.WithTimeout(context.Background(), time.Duration(secs+5)*time.Second)
+	ctx, cancel := context.WithTimeout(parent, time.Duration(secs+5)*time.Second)
 	defer cancel()
 	t0 := time.Now()
 	cmd := exec.CommandContext(ctx, args[0], args[1:]...)
@@ -229,37 +233,73 @@ func solveOne(o *Obligation, file string, opts solveOpts) *SolveResult {
 	if !o.Cover && o.Goal.IsTrue() {
 		return &SolveResult{Status: "unsat", Solver: "trivial", File: file}
 	}
-	var last string
-	for _, sp := range solvers {
-		status, out, ms := runSolver(sp, file, opts.secs, opts.seed)
-		res.Tried = append(res.Tried, fmt.Sprintf("%s:%s:%dms", sp.name, status, ms))
-		last = out
+	type answer struct {
+		sp          solverSpec
+		status, out string
+		ms          int64
+	}
+	// quick mode: z3-new alone for a short while (most goals take milliseconds), then race
+	// z3-new and cvc5 with the full budget, then z3 4.8 as a last resort.
+	if !opts.thorough {
+		status, out, ms := runSolver(solvers[0], file, 2, opts.seed)
+		res.Tried = append(res.Tried, fmt.Sprintf("%s:%s:%dms", solvers[0].name, status, ms))
 		if status == "unsat" || status == "sat" {
+			res.Status, res.Solver, res.Ms, res.Output = status, solvers[0].name, ms, out
+			if status == "sat" {
+				res.Model = out
+			}
+			return res
+		}
+	}
+	race := []solverSpec{solvers[0], solvers[1]}
+	ch := make(chan answer, len(race))
+	ctx, cancel := context.WithCancel(context.Background())
+	for _, sp := range race {
+		go func(sp solverSpec) {
+			status, out, ms := runSolverCtx(ctx, sp, file, opts.secs, opts.seed)
+			ch <- answer{sp, status, out, ms}
+		}(sp)
+	}
+	var answers []answer
+	for range race {
+		a := <-ch
+		res.Tried = append(res.Tried, fmt.Sprintf("%s:%s:%dms", a.sp.name, a.status, a.ms))
+		answers = append(answers, a)
+		if a.status == "unsat" || a.status == "sat" {
 			if res.Solver == "" {
-				res.Status, res.Solver, res.Ms, res.Output = status, sp.name, ms, out
-				if status == "sat" {
-					res.Model = out
+				res.Status, res.Solver, res.Ms, res.Output = a.status, a.sp.name, a.ms, a.out
+				if a.status == "sat" {
+					res.Model = a.out
 				}
-				if !opts.thorough || status != want {
+				if !opts.thorough || a.status != want {
+					cancel()
 					break
 				}
-				continue
+			} else {
+				if a.status != res.Status {
+					res.Output = fmt.Sprintf("solver disagreement: %s says %s, %s says %s", res.Solver, res.Status, a.sp.name, a.status)
+					res.Status = "error"
+					cancel()
+					return res
+				}
+				res.Agree = append(res.Agree, a.sp.name)
 			}
-			// thorough: cross-check
-			if status != res.Status {
-				res.Status = "error"
-				res.Output = fmt.Sprintf("solver disagreement: %s says %s, %s says %s", res.Solver, res.Status, sp.name, status)
-				return res
-			}
-			res.Agree = append(res.Agree, sp.name)
-			break
-		}
-		if status == "timeout" && res.Status == "unknown" {
+		} else if a.status == "timeout" && res.Status == "unknown" && res.Solver == "" {
 			res.Status = "timeout"
 		}
 	}
+	cancel()
 	if res.Solver == "" {
-		res.Output = last
+		status, out, ms := runSolver(solvers[2], file, opts.secs, opts.seed)
+		res.Tried = append(res.Tried, fmt.Sprintf("%s:%s:%dms", solvers[2].name, status, ms))
+		if status == "unsat" || status == "sat" {
+			res.Status, res.Solver, res.Ms, res.Output = status, solvers[2].name, ms, out
+			if status == "sat" {
+				res.Model = out
+			}
+		} else if len(answers) > 0 {
+			res.Output = answers[len(answers)-1].out
+		}
 	}
 	return res
 }
